@@ -60,6 +60,11 @@ def baseline_pass_set(head: str) -> set:
     cache = f"/tmp/seed-baseline-pass-{head}.json"
     if os.path.exists(cache):
         return set(json.load(open(cache)))
+    import fcntl
+    lockf = open(f"/tmp/seed-baseline-{head}.lock", "w")
+    fcntl.flock(lockf, fcntl.LOCK_EX)          # several evaluations may start at once: one of them computes the baseline
+    if os.path.exists(cache):
+        return set(json.load(open(cache)))
     wt = f"/tmp/seedwt-baseline-{head}"
     sh(f"git -C /repo worktree remove --force {wt}")
     sh(f"git -C /repo worktree add -q --detach {wt} HEAD && cp /repo/src/easynetwork/version.py {wt}/src/easynetwork/")
